@@ -61,6 +61,8 @@ def _reaches_without(f, a, b, barrier):
 
 
 def run(m, rep, tier):
+    from .. import canaries
+    canaries.run(m, rep, ('handoff',))
     orders = {k.replace('CSTL_BINTREE_VISIT_ORDER_', ''): v for k, v in astfacts.enum_constants(m).items() if k.startswith('CSTL_BINTREE_VISIT_ORDER_')}
     k1 = rep.rule('K1', 'no access through a node after it was handed to the callback', floor=6)
     k2 = rep.rule('K2', 'every element is handed over exactly once', floor=5)
